@@ -40,7 +40,7 @@ impl FileCache {
             let result = result.unwrap();
             let metadata = result.metadata();
     
-            if let Err(e) = result.metadata() {
+            if let Err(e) = &metadata {
                 eprintln!("Encountered error while reading metadata: {}", e);
                 continue;
             }
@@ -89,7 +89,7 @@ impl FileCache {
         let result = handle.unwrap();
         let metadata = result.metadata();
     
-        if let Err(e) = result.metadata() {
+        if let Err(e) = &metadata {
             eprintln!("Encountered error while reading metadata {}", e);
             return;
         }
